@@ -25,7 +25,7 @@ import (
 )
 
 type C15Conn struct {
-	Kind  string `json:"kind"` // ok | cipher | replay_client | replay_server | bad_address | connect_fail | client_reset | target_reset | corrupt_chunk | client_first_close | target_first_close
+	Kind  string `json:"kind"` // ok | target_first_upload (the target half-closes after its answer, the client then uploads more) | cipher | replay_client | replay_server | bad_address | connect_fail | client_reset | target_reset | corrupt_chunk | client_first_close | target_first_close
 	Key   int    `json:"key"`
 	Up    int    `json:"up"`   // plaintext bytes client -> target
 	Down  int    `json:"down"` // bytes target -> client
@@ -44,7 +44,7 @@ func genC15(maxConns int) func(t *rapid.T) C15Case {
 		n := rapid.IntRange(1, maxConns).Draw(t, "nconns")
 		for i := 0; i < n; i++ {
 			c.Conns = append(c.Conns, C15Conn{
-				Kind: rapid.SampledFrom([]string{"ok", "ok", "ok", "client_first_close", "target_first_close", "cipher", "replay_client", "replay_server", "bad_address", "connect_fail", "client_reset", "target_reset", "corrupt_chunk"}).Draw(t, "kind"),
+				Kind: rapid.SampledFrom([]string{"ok", "ok", "ok", "client_first_close", "target_first_close", "target_first_upload", "cipher", "replay_client", "replay_server", "bad_address", "connect_fail", "client_reset", "target_reset", "corrupt_chunk"}).Draw(t, "kind"),
 				Key:  rapid.IntRange(0, len(c.Keys)-1).Draw(t, "key"), Up: rapid.SampledFrom([]int{0, 1, 100, 5000, 16383, 16384, 70000}).Draw(t, "up"),
 				Down: rapid.SampledFrom([]int{0, 1, 100, 5000, 16383, 16384, 70000}).Draw(t, "down"), Seed: rapid.Int64Range(1, 1<<40).Draw(t, "seed"), Chunk: rapid.SampledFrom([]int{1, 100, 16383}).Draw(t, "chunk")})
 		}
@@ -57,6 +57,7 @@ type c15Obs struct {
 	clientSent int64 // wire bytes written by the client
 	clientRecv int64 // wire bytes read by the client
 	tgtRecv    int64
+	plainUp    int64 // plaintext bytes the client sent for the target
 	tgtSent    int64
 	complete   bool // ran to completion: counters must equal
 	statuses   []string
@@ -83,6 +84,7 @@ func c15Run(front string, keys []kit.KeySpec, cn C15Conn, cacheOn bool, idx int)
 	defer tgt.Close()
 	addr := kit.SocksAddrFor(tgt.Addr, false)
 	up := kit.DetBytes(cn.Seed+1, cn.Up)
+	o.plainUp = int64(cn.Up)
 	salt := kit.DetBytes(cn.Seed, key.SaltSize())
 	if cn.Kind == "replay_server" {
 		service.NewServerSaltGenerator(ks.Secret).GetSalt(salt)
@@ -234,20 +236,29 @@ func c15Run(front string, keys []kit.KeySpec, cn C15Conn, cacheOn bool, idx int)
 			tRecv = n
 		}()
 		switch cn.Kind {
-		case "ok", "client_first_close", "target_first_close":
+		case "ok", "client_first_close", "target_first_close", "target_first_upload":
 			if cn.Kind == "client_first_close" {
 				cl.CloseWrite()
 				<-tDone
 			}
 			m, _ := tc.Write(down)
 			o.tgtSent = int64(m)
-			if cn.Kind == "target_first_close" {
+			if cn.Kind == "target_first_close" || cn.Kind == "target_first_upload" {
 				tc.CloseWrite()
 				select {
 				case <-recvDone:
 				case <-time.After(8 * time.Second):
 					o.err = "client did not see the target's end of stream"
 					return
+				}
+				if cn.Kind == "target_first_upload" {
+					// the target has finished talking but still listens: the client goes on uploading
+					more := kit.DetBytes(cn.Seed+3, cn.Up+1)
+					o.plainUp += int64(len(more))
+					for off := 0; off < len(more); off += cn.Chunk {
+						n, _ := cl.Write(enc.Chunk(more[off:min(len(more), off+cn.Chunk)]))
+						o.clientSent += int64(n)
+					}
 				}
 				cl.CloseWrite()
 				<-tDone
@@ -401,7 +412,7 @@ func runC15(c C15Case, info *kit.Info) *kit.Finding {
 			}
 			// Upper bounds from the sender's side of each hop (a peer that reset may not have read what was sent to it):
 			// client wrote clientSent; the client's plaintext is cn.Up bytes; the target wrote tgtSent; the client read clientRecv.
-			bound := [4]int64{o.clientSent, int64(cn.Up), o.tgtSent, o.clientRecv}[k]
+			bound := [4]int64{o.clientSent, o.plainUp, o.tgtSent, o.clientRecv}[k]
 			if k == 3 && cn.Kind == "client_reset" {
 				continue // the proxy may have sent bytes the resetting client never read
 			}
